@@ -482,10 +482,10 @@ def _wrap_class(cls):
     if getattr(orig, "_gsim_wrapped", False):
         return
 
-    def tighten_bounds(self, _orig=orig):
+    def tighten_bounds(self, *args, _orig=orig, **kwargs):
         m = MON
-        if m is None:
-            return _orig(self)
+        if m is None or args or kwargs:
+            return _orig(self, *args, **kwargs)
         return m.around(self, _orig)
     tighten_bounds._gsim_wrapped = True
     tighten_bounds.__wrapped__ = orig
